@@ -273,6 +273,10 @@ impl CellBuffer {
             .css_styles
             .iter()
             .map(|(class, styles)| {
+                // the declarations come from the input text and end up as character data
+                // of the style element
+                #[cfg(not(feature = "with-dom"))]
+                let styles = crate::fragment::escape_html_text(styles);
                 format!(".svgbob .{}{{ {} }}", class, styles)
             })
             .collect();
